@@ -1,6 +1,7 @@
 package an
 
 import (
+	"go/token"
 	"fmt"
 	"go/types"
 	"math"
@@ -667,7 +668,12 @@ func (e *Eval) model(fr *frame, x *ssa.Call, callee *ssa.Function, args []AV, st
 		return ret(e.fallible(x, name, st))
 	case "(*sync.Once).Do":
 		if fv, ok := args[1].(FuncV); ok {
-			for _, b := range fv.Bindings {
+			for i, b := range fv.Bindings {
+				// a captured variable the function only reads keeps its value; one it assigns,
+				// or hands on, is unknown afterwards (the function may or may not have run here)
+				if fv.Fn != nil && i < len(fv.Fn.FreeVars) && onlyLoaded(fv.Fn.FreeVars[i]) {
+					continue
+				}
 				e.escape(fr, st, b, "captured by a Once function")
 			}
 		}
@@ -714,6 +720,26 @@ func (e *Eval) model(fr *frame, x *ssa.Call, callee *ssa.Function, args []AV, st
 		return ret(out)
 	}
 	return ret(e.topOf(x.Type(), "call "+name))
+}
+
+// onlyLoaded: every use of the captured variable's cell is a load of its value.
+func onlyLoaded(fv *ssa.FreeVar) bool {
+	refs := fv.Referrers()
+	if refs == nil {
+		return true
+	}
+	for _, r := range *refs {
+		switch x := r.(type) {
+		case *ssa.DebugRef:
+		case *ssa.UnOp:
+			if x.Op != token.MUL {
+				return false
+			}
+		default:
+			return false
+		}
+	}
+	return true
 }
 
 // fallible gives the error result of a call that can fail: unknown now, refined on the
